@@ -34,3 +34,11 @@ def double_images(x: "float"):
     option("auto_for", "f64_bits")
     ensures(0 <= f64_bits(x) and f64_bits(x) < 18446744073709551616)
     ensures(of_f64_bits(f64_bits(x)) == x)
+
+
+@assumed("lemmas:unpack_rep")
+def unpack_rep(b: "arr"):
+    note("binary expansion: a string of bytes in 0..255 is the canonical packing of its 8*len bits (bits_of_bytes), LSB first")
+    option("auto_for", "bits_of_bytes")
+    requires(bytes_ok(b))
+    ensures(Rep(b, bits_of_bytes(b)) and len(bits_of_bytes(b)) == 8 * arr_len(b))
